@@ -347,6 +347,7 @@ def run_case(ctx: Ctx, rng, stream, reqs, forced=None):
         case, spec, health, role, cls = forced
         op, tok = spec["op"], spec["tok"]
     rep = {"case": case.to_json(), "spec": spec, "health": health, "role": role, "cls": cls, "stream": stream}
+    count_features(ctx, case)
     out = []
     amount = None if spec.get("amount") is None else D(spec["amount"])
     if op == "borrow":
@@ -485,7 +486,7 @@ def seq_step(rng, case, m, focus):
         pr = F(rows[tok]["p"])
         front = (E.weighted_ltv - E.total_debt) / pr if pr != 0 else F(1)
         f, cls = rng.choice(SEQ_F)
-        return {"op": "borrow", "tok": tok, "amount": str(dec((front if front > 0 else F(1)) * f, 33))}, cls
+        return {"op": "borrow", "tok": tok, "amount": str(dec((front if front > 0 else F(1)) * f, 33)), "_f": f}, cls
     if k < 0.11:
         # a read-only helper in the middle of the sequence: whatever it looks at, it must leave every figure as it was
         if rng.random() < 0.65:
@@ -501,7 +502,7 @@ def seq_step(rng, case, m, focus):
             others = E.weighted_lt - bal * F(rows[tok]["p"]) * lt
             front = bal - max((E.total_debt - others) / lt / F(rows[tok]["p"]), F(0))
         f, cls = rng.choice(SEQ_F)
-        return {"op": "withdraw", "tok": tok, "amount": str(dec((front if front > 0 else bal) * f, 33))}, cls
+        return {"op": "withdraw", "tok": tok, "amount": str(dec((front if front > 0 else bal) * f, 33)), "_f": f}, cls
     if k < 0.78:
         tok = rng.choice(sup_names)
         cur = [x for x in S["supplies"] if x[0] == tok][0][2]
@@ -539,18 +540,78 @@ def o_monotone(out, obs, op):
         out.append((f"{op}.hf-stale", f"health_factor read after the call ({obs.get('hf1_warm')}) differs from its value on cold caches ({obs.get('hf1')})"))
 
 
-def run_sequence(ctx: Ctx, rng, reqs, forced=None):
-    """several calls on ONE market inside one bar: state and caches carried over, limits checked at the frontier after each"""
+LOOKS = ("health_factor", "max_ltv", "liquidation_threshold", "ltv", "borrows_value", "supplies_value", "collateral_value", "borrows", "supplies",
+         "total_borrows_value", "total_collateral_value")
+
+
+def next_bar_toks(rng, cur, kind):
+    """the next bar's token data: `quiet` = every price is what it was, the variable borrow index grows (0.3 .. 6 %), the liquidity index a
+    little or not at all (interest accrues on the debt, nothing else happens: stable-coin accounts, quiet minutes); `moved` = prices move too"""
+    nxt = {}
+    for n, t in cur.items():
+        bi = D(t["bi"]) * (1 + D(rng.randint(3000, 60000)) / 10 ** 6)
+        li = D(t["li"]) * (1 + D(rng.choice([0, 0, rng.randint(0, 8000)])) / 10 ** 6)
+        p = D(t["p"]) if kind != "moved" else (D(t["p"]) * D(rng.randint(93, 107)) / 100).normalize()
+        nxt[n] = {"li": str(li), "bi": str(bi), "p": str(p)}
+    return nxt
+
+
+def bar_plan(rng):
+    """the kinds of the steps of a multi-bar sequence: the figures are looked at on an early bar (the market's caches are warm), then one or
+    more bars in which only the indices move, then calls aimed at the frontier as it is NOW (judged by the exact oracle at the new indices)"""
+    plan = ["call"] * rng.choice([0, 0, 1]) + ["look"]
+    for _ in range(rng.choice([1, 1, 2])):
+        for _ in range(rng.choice([1, 1, 2, 3])):
+            plan.append(rng.choice(["quiet", "quiet", "quiet", "quiet", "refresh-same", "refresh-repriced", "moved"]))
+            if rng.random() < 0.3:
+                plan.append("look")
+        plan += ["edge"] * rng.choice([1, 1, 2])
+    return plan
+
+
+def count_features(ctx: Ctx, case):
+    sup_n, deb_n = {s[0] for s in case.supplies}, {d[0] for d in case.debts}
+    if sup_n & deb_n:
+        ctx.count("feature:same-token-supplied-and-borrowed")
+    if any(s[2] and D(case.rp_over.get(s[0], {}).get("baseLTVasCollateral", "1")) == 0 for s in case.supplies):
+        ctx.count("feature:zero-ltv-collateral-held")
+    if any(L.TOKEN_DECIMALS.get(n.upper()) == 6 for n in sup_n | deb_n):
+        ctx.count("feature:six-decimal-token-held")
+
+
+def run_sequence(ctx: Ctx, rng, reqs, forced=None, bars=False):
+    """several calls on ONE market: state and caches carried over, limits checked at the frontier after each; `bars`: the sequence runs over
+    several bars (see `bar_plan`), otherwise inside one bar"""
+    from datetime import timedelta
+    plan = None
     if forced is None:
         case, health, other = gen_portfolio(rng, rng.random() < 0.3, False)
-        if health.split("+")[0] not in ("healthy", "nodebt", "ltv-edge"):
-            case.debts = []
-            health = "nodebt"
+        if health.split("+")[0] not in ("healthy", "nodebt", "ltv-edge") or (bars and health.split("+")[0] == "nodebt" and rng.random() < 0.8):
+            if bars and case.supplies:
+                # a healthy account with debt: the limits of a later bar depend on how the debt has grown
+                rp0 = L.load_rp(case.rp_path)
+                dn = rng.choice([n for n in case.toks])
+                wl = sum((F(D(b_)) * F(D(case.toks[n]["li"])) * F(D(case.toks[n]["p"])) *
+                          F(D(case.rp_over.get(n, {}).get("baseLTVasCollateral", rp0.loc[n].baseLTVasCollateral))) for n, b_, c in case.supplies if c), F(0))
+                tot = wl * F(rng.randint(30, 90), 100)
+                if tot > 0 and D(case.toks[dn]["p"]) != 0:
+                    bd = tot / F(D(case.toks[dn]["p"])) / F(D(case.toks[dn]["bi"]))
+                    case.debts = [[dn, str(D(format(D(bd.numerator) / D(bd.denominator), ".28e")))]]
+                    health = "healthy"
+                else:
+                    case.debts, health = [], "nodebt"
+            else:
+                case.debts = []
+                health = "nodebt"
         for n in case.toks:
             case.wallet[n] = "1000000"
-        focus = rng.choice(list(case.toks))
+        focus = rng.choice([d[0] for d in case.debts] or list(case.toks)) if bars else rng.choice(list(case.toks))
         steps = None
-        nsteps = rng.randint(4, 9)
+        if bars:
+            plan = bar_plan(rng)
+            nsteps = len(plan)
+        else:
+            nsteps = rng.randint(4, 9)
     else:
         case, steps, health = forced
         focus = None
@@ -558,17 +619,53 @@ def run_sequence(ctx: Ctx, rng, reqs, forced=None):
     m, b, toks, acts = L.build(case)
     names = list(case.toks)
     done, found = [], []
+    cur, minute, quiet_run = dict(case.toks), 0, 0
+    count_features(ctx, case)
     for i in range(nsteps):
         if steps is None:
-            spec, cls = seq_step(rng, case, m, focus)
-            spec["warm"] = rng.random() < 0.5
-            spec["cls"] = cls
+            kind = plan[i] if plan is not None else "call"
+            if kind == "look":
+                spec = {"op": "look", "tok": None, "views": rng.sample(LOOKS, rng.randint(2, 6))}
+            elif kind in ("quiet", "moved"):
+                minute += 1
+                spec = {"op": "bar", "tok": None, "toks": next_bar_toks(rng, cur, kind), "minute": minute, "kind": kind}
+            elif kind in ("refresh-same", "refresh-repriced"):
+                t2 = {n: dict(t) for n, t in cur.items()}
+                if kind == "refresh-repriced":
+                    n = rng.choice(list(t2))
+                    t2[n]["p"] = str((D(t2[n]["p"]) * D(rng.randint(80, 120)) / 100).normalize())
+                spec = {"op": "bar", "tok": None, "toks": t2, "minute": minute, "kind": kind, "refresh": True}
+            else:
+                spec, cls = seq_step(rng, case, m, focus)
+                if kind == "edge" and spec["op"] in ("borrow", "withdraw") and rng.random() < 0.8:
+                    # just inside / just beyond the frontier of the CURRENT bar: between the limit a stale figure would give and the true one
+                    f, cls = rng.choice([(1 + F(1, 1000), "f+1e-3"), (1 + F(1, 1000), "f+1e-3"), (1 + MARGIN * 2, "f+2e-9"), (1 - MARGIN * 2, "f-2e-9"),
+                                         (1 + F(1, 100), "f+1e-2")])
+                    # re-aim: seq_step multiplied the frontier by one of SEQ_F (`_f`); undo it and apply f
+                    if "_f" in spec:
+                        spec["amount"] = str(dec(F(D(spec["amount"])) / spec.pop("_f") * f, 33))
+                spec.pop("_f", None)
+                spec["warm"] = rng.random() < 0.5
+                spec["cls"] = cls
         else:
             spec = steps[i]
-            cls = spec.get("cls", "?")
+        cls = spec.get("cls", "?")
         done.append(spec)
-        rep = {"case": case.to_json(), "seq": list(done), "health": health, "stream": "sequence"}
         op, tok = spec["op"], spec["tok"]
+        if op == "look":
+            for v in spec["views"]:
+                try:
+                    getattr(m, v)
+                except Exception:       # noqa: BLE001
+                    pass
+            continue
+        if op == "bar":
+            L.set_bar(m, spec["toks"], L.TS + timedelta(minutes=spec["minute"]), refresh=bool(spec.get("refresh")))
+            cur = spec["toks"]
+            quiet_run = quiet_run + 1 if spec["kind"] in ("quiet", "refresh-same") else 0
+            ctx.count("bars:" + spec["kind"])
+            continue
+        rep = {"case": case.to_json(), "seq": list(done), "health": health, "stream": "sequence"}
         amount = None if spec.get("amount") is None else D(spec["amount"])
         out = []
         if op == "borrow":
@@ -607,7 +704,11 @@ def run_sequence(ctx: Ctx, rng, reqs, forced=None):
             o_figures(out, obs)
         o_monotone(out, obs, op)
         nth = sum(1 for x in done if x["op"] == op and x["tok"] == tok)
-        ctx.case(f"sequence:{op}:{'same-token-x' + str(min(nth, 3))}:{'warm' if spec['warm'] else 'asleft'}:{cls}:{obs['cause'] or 'ok'}", rep)
+        if any(x["op"] == "bar" for x in done):
+            last = [x for x in done if x["op"] == "bar"][-1]["kind"]
+            ctx.case(f"bars:{op}:after-{last}:quiet-run-{min(quiet_run, 3)}:{'warm' if spec['warm'] else 'asleft'}:{cls}:{obs['cause'] or 'ok'}", rep)
+        else:
+            ctx.case(f"sequence:{op}:{'same-token-x' + str(min(nth, 3))}:{'warm' if spec['warm'] else 'asleft'}:{cls}:{obs['cause'] or 'ok'}", rep)
         for k, what in out:
             ctx.violate(k, f"(call {i + 1} of a sequence on one market) {what}", rep)
             found.append((k, what))
@@ -668,6 +769,8 @@ def run(ctx: Ctx):
         run_case(ctx, ctx.rng, stream, reqs)
     for i in range(ctx.scale(70, 2000)):
         run_sequence(ctx, ctx.rng, reqs)
+    for i in range(ctx.scale(90, 2500)):
+        run_sequence(ctx, ctx.rng, reqs, bars=True)
     ctx.impl_traces = len(reqs)
     if ctx.driver_ok:
         out = driver_json([dict(r, ctx="py", state=o["state"]) for _, o, r in reqs], exe="driver_aaverisk")
